@@ -19,7 +19,11 @@ writable class, plain and .gz/.bz2/.zst.  For a compressed file the decompressor
 the harness measures how many bytes the truncated stream still delivers (zlib/bz2/pyzstd) and
 asks the model about that many bytes in strict mode; the model's E must be matched, its Q may
 become an exception (the decompressor may raise before the last byte it could deliver).
-GIFTI (XML) and the SPM .mat member are swept against the predicate only.
+Partial reads (img.dataobj[..., 1::2], [..., -1], [..., 0]) go through the fileslice model of coq/C06 on the prefix, or -
+for a stream that raises when it runs out (bz2, zstd) - through rd_raising of coq/C08/ModelSlice.v:
+  psingle|pimg|pmgh ... / psingleR|pimgR <...> <sel> <shape> <w> <x file> <delivered bytes per cut>
+GIFTI: expat's verdict (pyexpat alone) + the handler machine of coq/C17.  SPM .mat member: loadmat-contract model
+  spmmat <names> <record sizes> <cuts>   -> one digit per cut (0 raises, 1 header affine, 2/3 affine of the complete .mat)
 """
 import bz2
 import io
@@ -34,6 +38,7 @@ from common import Check, ensure_impl_path, run_model, vm_crosscheck, REPO
 from c16_tables import gen_tables
 
 PROP = 'C08'
+SLICE_SEL = {'slice_last': 0, 'slice_step': 1, 'slice_first': 2}     # idx_sel of coq/C08/ModelSlice.v
 COMPS = ['', '.gz', '.bz2', '.zst']
 
 
@@ -47,6 +52,8 @@ def make_data(rng, kind):
         return np.array([rng.randrange(-3000, 3000) for _ in range(24)], np.int16).reshape(2, 3, 4)
     if kind == 'slab':
         return np.array([rng.randrange(1, 3000) for _ in range(12 * 12 * 4)], np.int16).reshape(12, 12, 4)
+    if kind == 'blocks':     # incompressible and larger than one zstd block (128 KiB): a truncated stream delivers part of it
+        return np.frombuffer(rng.randbytes(16 * 16 * 320 * 2), np.int16).reshape(16, 16, 320).copy()
     if kind == 'f4':
         return np.array([rng.uniform(-50, 50) for _ in range(12)], np.float32).reshape(2, 3, 2)
     return np.array([rng.randrange(0, 256) for _ in range(60)], np.uint8).reshape(5, 4, 3)
@@ -57,9 +64,9 @@ def build_specs(rng):
     import nibabel as nib
     specs = []
 
-    def vol(name, cls, kind, endian='<', ext=False, comps=COMPS, hasext=True, members=None, modes=('full',)):
+    def vol(name, cls, kind, endian='<', ext=False, comps=COMPS, hasext=True, members=None, modes=('full',), cuts='all'):
         specs.append(dict(name=name, family='vol', cls=cls, data=make_data(rng, kind), endian=endian, ext=ext,
-                          comps=comps, hasext=hasext, members=members, modes=list(modes)))
+                          comps=comps, hasext=hasext, members=members, modes=list(modes), cuts=cuts))
     vol('nifti1', nib.Nifti1Image, 'i2')
     vol('nifti1_ext_be', nib.Nifti1Image, 'f4', endian='>', ext=True)
     vol('nifti2', nib.Nifti2Image, 'u1')
@@ -70,9 +77,12 @@ def build_specs(rng):
     vol('spm2', nib.Spm2AnalyzeImage, 'f4', endian='>', hasext=False)
     vol('mgh', nib.MGHImage, 'i2', comps=['', '.mgz'])
     # slabs larger than the 256-byte skip threshold of fileslice, so that stepped slices read several segments
-    vol('nifti1_slabs', nib.Nifti1Image, 'slab', comps=['', '.gz'], modes=['full', 'slice_step', 'slice_last'])
-    vol('analyze_slabs', nib.AnalyzeImage, 'slab', hasext=False, comps=[''], modes=['full', 'slice_step', 'slice_last'])
-    vol('mgh_slabs', nib.MGHImage, 'slab', comps=[''], modes=['full', 'slice_step', 'slice_last'])
+    vol('nifti1_slabs', nib.Nifti1Image, 'slab', comps=['', '.gz', '.bz2', '.zst'], modes=['full', 'slice_step', 'slice_last', 'slice_first'])
+    vol('analyze_slabs', nib.AnalyzeImage, 'slab', hasext=False, comps=['', '.bz2'], modes=['full', 'slice_step', 'slice_last', 'slice_first'])
+    # a stream that raises when it runs out AND still delivers part of the data: two zstd blocks; cuts sampled (see sample_cuts)
+    # (no stepped slice: the C06 model's post-slicing is quadratic in the number of elements read)
+    vol('nifti1_blocks', nib.Nifti1Image, 'blocks', comps=['.zst'], modes=['full', 'slice_last', 'slice_first'], cuts='sample')
+    vol('mgh_slabs', nib.MGHImage, 'slab', comps=[''], modes=['full', 'slice_step', 'slice_last', 'slice_first'])
     specs.append(dict(name='cifti2', family='cifti', comps=[''], modes=['full', 'slice_step']))
     specs.append(dict(name='gifti', family='gifti', comps=['', '.gz', '.bz2'], modes=['full', 'bs2048', 'bs3000']))
     pts = lambda n: np.array([[rng.uniform(-90, 90) for _ in range(3)] for _ in range(n)], '<f4')  # noqa
@@ -197,6 +207,8 @@ def load_observable(fam, main, mmap, lazy=False, mode='full'):
                 a = np.asarray(img.dataobj[(slice(None),) * (len(img.shape) - 1) + (slice(1, None, 2),)])
             elif mode == 'slice_last':
                 a = np.asarray(img.dataobj[..., -1])
+            elif mode == 'slice_first':
+                a = np.asarray(img.dataobj[..., 0])
             else:
                 a = np.asanyarray(img.dataobj)
             return (a.shape, a.dtype.str, a.tobytes())
@@ -277,6 +289,27 @@ def available_bytes(comp, prefix):
     raise ValueError(comp)
 
 
+def sample_cuts(comp, raw, k=12):
+    """cut points of a large compressed file: k evenly spaced, both ends, and the cuts around the first point between
+    two of them where the number of bytes the truncated stream delivers changes (found by bisection)"""
+    n = len(raw)
+    pts = sorted({0, 1, 2, n - 2, n - 1} | {i * (n - 1) // (k - 1) for i in range(k)})
+    av = {p: available_bytes(comp, raw[:p]) or 0 for p in pts}
+    extra = set()
+    for a, b in zip(pts, pts[1:]):
+        if av[a] != av[b] and b - a > 1:            # the first change between two sampled cuts
+            lo, hi = a, b
+            while hi - lo > 1:
+                mid = (lo + hi) // 2
+                av[mid] = available_bytes(comp, raw[:mid]) or 0
+                if av[mid] == av[a]:
+                    lo = mid
+                else:
+                    hi = mid
+            extra |= {lo - 1, lo, hi, hi + 1}
+    return sorted(p for p in set(pts) | extra if 0 <= p < n)
+
+
 def stream_is_strict(comp, workdir):
     """platform fact, read not assumed: does reading past the end of a truncated compressed stream
     raise (strict) or return fewer bytes like a plain file (indexed_gzip does the latter)?"""
@@ -345,6 +378,58 @@ def gifti_model_classes(plain, avail, strict, buffer_size):
     return ''.join(x if isinstance(x, str) else cls[x] for x in out), len(todo)
 
 
+def mat4_records(raw):
+    """names and sizes of the records of a MATLAB-4 file (independent of scipy: 20-byte header of five
+    little-endian int32 MOPT, mrows, ncols, imagf, namlen; name; data)"""
+    import struct
+    out, pos = [], 0
+    while pos + 20 <= len(raw):
+        mopt, mrows, ncols, imagf, namlen = struct.unpack('<5i', raw[pos:pos + 20])
+        elsize = {0: 8, 1: 4, 2: 4, 3: 2, 4: 2, 5: 1}[(mopt // 10) % 10]
+        size = 20 + namlen + mrows * ncols * elsize * (2 if imagf else 1)
+        out.append((raw[pos + 20:pos + 20 + namlen].rstrip(b'\0').decode('latin1'), size))
+        pos += size
+    return out if pos == len(raw) else None
+
+
+def spm_mat_classes(members, workdir, tag):
+    """the .mat member cut at every byte, loaded in this process on a private copy of the file set; one
+    letter per cut: E raises | H data equal, affine of the header (as without .mat) | A data equal, affine of
+    the complete .mat | B both (the two affines coincide) | X data equal, another affine | D other data"""
+    import shutil
+    import nibabel as nib
+    d = os.path.join(workdir, f'mat_{tag}')
+    os.makedirs(d)
+    q = {k: os.path.join(d, os.path.basename(p)) for k, p in members.items()}
+    for k, p in members.items():
+        shutil.copy(p, q[k])
+    raw = open(q['mat'], 'rb').read()
+    with warnings.catch_warnings():
+        warnings.simplefilter('ignore')
+        full = nib.load(q['image'])
+        fdata, faff = np.asarray(full.dataobj).copy(), full.affine.copy()
+        os.remove(q['mat'])
+        haff = nib.load(q['image']).affine.copy()
+        out = []
+        for n in range(len(raw)):
+            with open(q['mat'], 'wb') as f:
+                f.write(raw[:n])
+            try:
+                im = nib.load(q['image'])
+                dat = np.asarray(im.dataobj)
+                a = im.affine
+            except Exception:  # noqa
+                out.append('E')
+                continue
+            if dat.shape != fdata.shape or dat.tobytes() != fdata.tobytes():
+                out.append('D')
+            else:
+                isa, ish = np.array_equal(a, faff), np.array_equal(a, haff)
+                out.append('B' if isa and ish else 'A' if isa else 'H' if ish else 'X')
+    shutil.rmtree(d, ignore_errors=True)
+    return ''.join(out), raw
+
+
 def read_plain(comp, path):
     from nibabel.openers import Opener
     if comp == '.mgz':
@@ -362,8 +447,9 @@ def run(chk: Check):
                 'an extension, big-endian), NIfTI-2, NIfTI-1/2 pairs (.hdr with extension, .img), Analyze, SPM99, SPM2 '
                 '(.hdr, .img, .mat), MGH/MGZ, CIFTI-2, GIFTI, TCK (3 streamlines; empty; streamlines starting with an '
                 'all-inf point), TRK (3 streamlines with scalars and properties; with scalars and no properties; points only; empty) x {plain, .gz, .bz2, .zst} x mmap '
-                '{True, False}; plus, on files with slabs above the fileslice skip threshold, partial reads img.dataobj[..., 1::2] '
-                'and [..., -1] at every cut; three successive reads from one lazily loaded TCK/TRK object at every cut; GIFTI '
+                '{True, False}; plus, on files with slabs above the fileslice skip threshold, partial reads img.dataobj[..., 1::2], '
+                '[..., -1] and [..., 0] at every cut (plain, .gz, .bz2, .zst) and at ~60 sampled cuts of a two-block .zst file whose truncated stream still delivers part of the data; '
+                'the SPM .mat member at every cut with the affine observed; three successive reads from one lazily loaded TCK/TRK object at every cut; GIFTI '
                 'parsed with buffer_size 2048 and 3000 at every cut; the set of files and cut points is exhaustive and seed-independent, the seed only '
                 'changes voxel values and coordinates; non-trivial = every cut point (a strict prefix); distinct by '
                 '(file kind, compression, member, mmap, length)')
@@ -376,7 +462,7 @@ def run(chk: Check):
         'gzip/bz2/zstd decompressors are oracles: a truncated stream delivers a prefix of the plain bytes and then raises; it may raise earlier than the model assumes',
         'np.memmap of a region beyond the end of the file raises (numpy checks the size); observed, not proved']
     chk.trusted += ['zlib / bz2 / pyzstd streaming decompressors (used to measure what a truncated stream delivers)',
-                    'expat (GIFTI) and scipy.io.loadmat (SPM .mat): swept against the predicate only']
+                    'expat (GIFTI) and scipy.io.loadmat (SPM .mat): oracles with explicit contracts (C08_prefix_gifti, C08_prefix_spm_mat), measured at every cut']
     chk.build(gen_tables=gen_tables)
     chk.run_probes()
     if not chk.model_ok:
@@ -389,6 +475,7 @@ def run(chk: Check):
     tasks = []
     meta = []
     lines = []
+    mat_cases = []
     for si, spec in enumerate(specs):
         fam = spec['family']
         for comp in spec['comps']:
@@ -443,12 +530,12 @@ def run(chk: Check):
             for key, path in sorted(members.items()):
                 raw = open(path, 'rb').read()
                 plain = raw if not comp or key == 'mat' else read_plain(comp, path)
-                lens = list(range(len(raw)))
+                lens = list(range(len(raw))) if spec.get('cuts', 'all') == 'all' or not comp else sample_cuts(comp, raw)
                 mmaps = [False, True] if not comp else [False]
                 for mode in modes:
                     if mode != 'full' and key not in ('image',):
                         continue          # partial reads / retries concern the member that holds the data
-                    for mm in (mmaps if mode in ('full', 'slice_step', 'slice_last') else [False]):
+                    for mm in (mmaps if mode in ('full',) + tuple(SLICE_SEL) else [False]):
                         for lo in range(0, len(lens), 160):
                             tasks.append((REPO, chk.workdir, fam, members, main, key, mm, lens[lo:lo + 160],
                                           expected_by_mode[mode], lazy, mode))
@@ -482,26 +569,38 @@ def run(chk: Check):
                 if line:
                     lines.append(f'{cid} {line}')
                 # partial reads through the array proxy: the fileslice model of C06 on the same prefixes
-                # (plain files, and compressed streams that end silently; a raising stream: predicate only)
+                # (plain files and compressed streams that end silently: the prefix; a raising stream: rd_raising)
                 pcids = {}
-                if fam in ('vol', 'cifti') and key == 'image' and not strict:
+                if fam in ('vol', 'cifti') and key == 'image' and not (strict and spec.get('cls') is nib.MGHImage):
+                    R = 'R' if strict else ''     # the stream raises when it runs out: rd_raising of ModelSlice.v
                     for mode in modes:
-                        if mode not in ('slice_step', 'slice_last'):
+                        if mode not in SLICE_SEL:
                             continue
-                        step = int(mode == 'slice_step')
+                        step = SLICE_SEL[mode]
                         cls = spec.get('cls')
                         if fam == 'vol' and cls is nib.MGHImage:
                             pl = f"pmgh {par['hsize']} {par['vox']} {par['ftr']} {step} {par['shape']} {par['w']} {hx(plain)} {mlens}"
                         elif fam == 'cifti' or len(cls.files_types) == 1:
-                            pl = f"psingle {par['hsize']} {par['vox']} {par['be']} {step} {par['shape']} {par['w']} {hx(plain)} {mlens}"
+                            pl = f"psingle{R} {par['hsize']} {par['vox']} {par['be']} {step} {par['shape']} {par['w']} {hx(plain)} {mlens}"
                         else:
-                            pl = f"pimg {par['vox']} {step} {par['shape']} {par['w']} {hx(plain)} {mlens}"
+                            pl = f"pimg{R} {par['vox']} {step} {par['shape']} {par['w']} {hx(plain)} {mlens}"
                         pcids[mode] = f'{cid}:{mode}'
                         lines.append(f'{cid}:{mode} {pl}')
                 if fam in ('tck', 'trk') and not comp and 'lazy_retry' in modes:
                     pcids['lazy_retry'] = f'{cid}:lazy_retry'
                     lines.append(f'{cid}:lazy_retry ' + (f'tckretry {4 * 1048576} 3 {hx(plain)} all' if fam == 'tck'
                                                           else f'trkretry 3 {hx(plain)} all'))
+                if key == 'mat' and not comp:
+                    got, mraw = spm_mat_classes(members, chk.workdir, f's{si}')
+                    recs = mat4_records(mraw)
+                    if recs is None:
+                        chk.violation('correspondence', case={'spec': spec['name']}, found_input=False,
+                                      predicate='the .mat member written is not a sequence of MATLAB-4 records',
+                                      theorem='correspondence C08/ModelMat.v')
+                    else:
+                        mat_cases.append((spec['name'], f'{cid}:matcls', got, mraw))
+                        lines.append(f'{cid}:matcls spmmat ' + ','.join(nm for nm, _ in recs) + ' [' + ','.join(str(sz) for _, sz in recs)
+                                     + '] [' + ','.join(map(str, range(len(mraw)))) + ']')
                 pystr = {}
                 if fam == 'gifti' and os.path.exists(os.path.join(os.path.dirname(os.path.dirname(os.path.abspath(__file__))), 'bin', 'modelrun_c17')):
                     for mode in modes:
@@ -509,7 +608,7 @@ def run(chk: Check):
                         avl = av if av is not None else list(range(len(raw)))
                         pystr[mode], nwf = gifti_model_classes(plain, avl, bool(strict), bs)
                         chk.tagc('gifti_well_formed_cuts_run_through_C17_handlers', nwf)
-                spec.setdefault('_members', {})[(comp, key)] = dict(raw=raw, plain=plain, av=av, cid=cid if line else None,
+                spec.setdefault('_members', {})[(comp, key)] = dict(raw=raw, plain=plain, av=av, lens=lens, cid=cid if line else None,
                                                                     pcids=pcids, pystr=pystr)
     t_prep = time.time() - t0
     # ---- run the sweeps in child processes
@@ -522,8 +621,36 @@ def run(chk: Check):
         impl.setdefault((si, comp, key, variant), {})[lo] = s
         for n, rep in differ:
             diffs.setdefault((si, comp, key, variant), []).append((n, rep))
+    with open(os.path.join(chk.workdir, 'model_lines.txt'), 'w') as fh:      # for replaying a slow or failing line by hand
+        fh.write('\n'.join(lines) + '\n')
     mod = run_model(PROP, lines, timeout=600)
     t_model = time.time() - t0 - t_prep - t_sweep
+    # ---- the SPM .mat member against the loadmat-contract model (C08_prefix_spm_mat, C08_spm_mat_cut_classes)
+    for name, mcid, got, mraw in mat_cases:
+        ms = mod.get(mcid, '<missing>')
+        chk.tagc('spm_mat_vs_loadmat_contract_model', len(got))
+        for c in 'EHABXD':
+            if got.count(c):
+                chk.tagc('spm_mat_outcome:' + {'E': 'raises', 'H': 'header_affine', 'A': 'affine_of_complete_mat', 'B': 'affine_of_complete_mat',
+                                               'X': 'OTHER_AFFINE', 'D': 'OTHER_DATA'}[c], got.count(c))
+        if not ms.startswith('ok ') or len(ms) - 3 != len(got):
+            chk.disagreements += 1
+            chk.violation('correspondence', case={'file': name + ':mat'}, model_output=ms[:200], found_input=False,
+                          predicate='model gave no answer for the .mat member', theorem='correspondence C08/ModelMat.v')
+            continue
+        allowed = {'0': 'E', '1': 'HB', '2': 'AB', '3': 'AB'}
+        bad = [(n, a, b) for n, (a, b) in enumerate(zip(ms[3:], got)) if b not in allowed[a]]
+        for n, a, b in bad[:1]:
+            if b == 'D':
+                chk.violation('property_violation', case=dict(spec=name, member='mat', cut_at=n, file_hex=mraw.hex(), family='vol', comp='', mmap=False),
+                              impl_output=b, predicate=f'{name}: the .mat member cut at byte {n} changes the voxel data loaded')
+            else:
+                chk.disagreements += 1
+                chk.violation('correspondence', case=dict(spec=name, member='mat', cut_at=n, file_hex=mraw.hex(), family='vol', comp='', mmap=False),
+                              model_output=f'class {a} (0 raises, 1 header affine, 2/3 affine of the complete .mat); {len(bad)} cuts differ, first {bad[:5]}',
+                              impl_output=b, found_input=False, theorem='C08_prefix_spm_mat / loadmat contract',
+                              predicate=f'{name}: .mat member cut at byte {n}: outcome (E raises, H header affine, A affine of the complete .mat, '
+                                        'X another affine) differs from the loadmat-contract model')
     # ---- compare
     for (si, comp, key, variant), parts in sorted(impl.items()):
         mm, mode = variant
@@ -532,8 +659,8 @@ def run(chk: Check):
         m = spec['_members'][(comp, key)]
         name = f"{spec['name']}{comp}:{key}:mmap={int(mm)}" + ('' if mode == 'full' else ':' + mode)
         for n, c in enumerate(s):
-            chk.count(key=(spec['name'], comp, key, mm, mode, n), tag=f"{spec['name']}{comp or ':plain'}",
-                      sample={'file': spec['name'] + comp, 'member': key, 'mmap': mm, 'cut_at': n, 'of': len(s), 'outcome': c}
+            chk.count(key=(spec['name'], comp, key, mm, mode, m['lens'][n]), tag=f"{spec['name']}{comp or ':plain'}",
+                      sample={'file': spec['name'] + comp, 'member': key, 'mmap': mm, 'cut_at': m['lens'][n], 'of': len(m['raw']), 'outcome': c}
                       if (n == len(s) // 2 and key == 'image' and not mm and mode == 'full') else None)
         chk.tagc('outcome:exception', s.count('E'))
         chk.tagc('outcome:equal', s.count('Q'))
@@ -550,8 +677,8 @@ def run(chk: Check):
         if mcid is None and mode not in m['pystr']:
             chk.tagc('oracle_member_predicate_only' if m['cid'] is None else 'predicate_only:' + mode, len(s))
             continue
-        if mode in ('slice_step', 'slice_last'):
-            chk.tagc('partial_read_vs_fileslice_model', len(s))
+        if mode in SLICE_SEL:
+            chk.tagc('partial_read_through_raising_stream_vs_model' if (comp and strict_of.get(comp)) else 'partial_read_vs_fileslice_model', len(s))
         elif mode == 'lazy_retry' and mode in m['pcids']:
             chk.tagc('lazy_retry_vs_retry_model', len(s))
         elif mode in m['pystr']:
@@ -573,7 +700,7 @@ def run(chk: Check):
             else:
                 ok = a == b
             if not ok:
-                bad.append((n, a, b))
+                bad.append((m['lens'][n], a, b))
         if bad:
             chk.disagreements += 1
             if not diffs.get((si, comp, key, variant)):
@@ -614,9 +741,16 @@ def run(chk: Check):
 UNPROVED = [
     'expat satisfies the contract of C08_prefix_gifti (feed_spec, no strict prefix of the document is well-formed, what '
     'follows the root element is ignored): oracle, measured with pyexpat alone at every cut, not proved',
-    'partial reads of a file delivered by a compressed stream that RAISES when it runs out (bz2, zstd): predicate only; '
-    'C08_prefix_partial_read covers plain files and streams that end silently (any prefix of the plain bytes)',
-    'the SPM .mat member (scipy.io.loadmat): no model; every cut point is swept against the predicate only',
+    'that the bz2 / zstd / indexed_gzip file objects satisfy reader_below (a seek+read that does not raise returns a prefix of '
+    'what the same seek+read returns on the complete file): the oracle contract of C08_prefix_partial_read_any_stream; the '
+    'harness measures what each truncated stream delivers and compares every partial read with rd_raising / the prefix, not proved',
+    'scipy.io.loadmat satisfies the contract of C08_prefix_spm_mat (the complete .mat gives the variables written, a prefix '
+    'raises or gives a leading part of them unchanged): oracle; measured at every cut of the .mat written (it loads only at the '
+    'MATLAB-4 record boundaries, computed by an independent record parser), not proved',
+    'the two float facts of C08_prefix_spm_mat (negating the first row twice is the identity; it commutes with @ from_111 because '
+    'round-to-nearest is symmetric) are premises, not derived in Flocq; the harness compares the affines bit for bit',
+    'the stepped slice [..., 1::2] is not run on the two-block zstd file (the post-slicing of the C06 model is quadratic in the '
+    'elements read); there the first and last slab and the full read are compared at sampled cuts only',
     'that gzip/bz2/zstd/indexed_gzip satisfy the contract of C08_prefix_compressed (a truncated stream delivers a prefix of '
     'the plain bytes, then raises or ends): oracle, measured by the harness on every cut point, not proved',
     'np.memmap of a region beyond the end of a file raises: runtime behaviour, observed (mmap=True sweep), not proved',
